@@ -345,12 +345,33 @@ def analyse(mod, run, label):
         if i.op == "store":
             fl = field_of(pf, mod, i.ops[1])
             if fl in ("thresholdValue", "min") and i.ops[0]["k"] != "int": stores[fl] = i.ops[0]
+        elif i.op == "call":
+            # a file-local "fill the metadata record" helper stores its arguments
+            h6 = mod.fn(i.get("callee") or "")
+            if h6 is None or not h6.internal or not h6.blocks or h6 is pf: continue
+            for j in h6.insts():
+                if j.op != "store": continue
+                fl = field_of(h6, mod, j.ops[1])
+                hv = strip(h6, j.ops[0])
+                if fl in ("thresholdValue", "min") and hv["k"] == "arg" and hv["v"] < i["nargs"] and i.ops[hv["v"]]["k"] != "int": stores[fl] = i.ops[hv["v"]]
     if set(stores) != {"thresholdValue", "min"}: raise AnalysisBroken("A6: stores of thresholdValue / min not found in varintPFORComputeThreshold")
     largest = pfi.lin(stores["thresholdValue"]) - pfi.lin(stores["min"])
     pe = need_fn(mod, "varintPFOREncode")
     diverts = any(i.op == "icmp" and i["pred"] in ("eq", "ne") and any(o["k"] == "inst" and pe.imap[o["v"]].op == "load" and field_of(pe, mod, pe.imap[o["v"]].ops[0]) == "exceptionMarker" for o in i.ops) for i in pe.insts())
     for (val, wres, site) in [m_[:3] for m_ in mv]:
         d = pfi.lin(val) - largest
+        if not d.is_const():
+            # `range` and `thresholdValue` adjusted together in one branch: two merges at the same join - compare them edge by edge
+            phis6 = [pf.imap[a_[1]] for a_ in d.atoms() if isinstance(a_, tuple) and a_[0] == "i" and pf.imap.get(a_[1]) is not None and pf.imap[a_[1]].op == "phi"]
+            if phis6 and len({p_.block.id for p_ in phis6}) == 1 and phis6[0].block.id not in pf.loops():
+                ds = []
+                for pb in phis6[0].block.preds:
+                    d2 = d
+                    for p_ in phis6:
+                        inc = next((c_ for c_ in p_["incoming"] if c_["b"] == pb.id), None)
+                        if inc is not None: d2 = d2.subst(("i", p_.id), pfi.lin(inc["v"]))
+                    ds.append(d2)
+                if ds and all(x.is_const() for x in ds): d = Lin.const(min(x.c for x in ds))
         okm = (d.is_const() and d.c >= 1) or diverts
         run.check(okm, "A6-pfor-marker-not-a-storable-offset", {"measured": repr(pfi.lin(val)), "largest_offset": repr(largest)},
                   Finding("A6-pfor-marker-collides-with-an-offset", pf.name, "exceptionMarker", "width",
@@ -362,24 +383,49 @@ def analyse(mod, run, label):
     vk8 = cs8.param_index("values"); ck8 = cs8.param_index("count")
     if vk8 is None or ck8 is None: raise AnalysisBroken("A8: parameters of varintAdaptiveCheckSorted not found")
     for h8, body8 in cs8.loops().items():
-        hb = cs8.bmap[h8]; t8 = hb.term
-        if t8.op != "br" or len(t8.ops) != 3 or t8.ops[0]["k"] != "inst": continue
-        ci8 = cs8.imap[t8.ops[0]["v"]]
-        if ci8.op != "icmp" or ci8["pred"] not in ("ult", "slt", "ne") or t8.ops[2]["v"] not in body8: continue
-        ph8 = strip(cs8, ci8.ops[0])
-        if ph8["k"] != "inst" or cs8.imap[ph8["v"]].op != "phi" or cs8.imap[ph8["v"]].block.id != h8: continue
-        phi8 = cs8.imap[ph8["v"]]
-        ins8 = [c_ for c_ in phi8["incoming"] if c_["b"] not in body8]; back8 = [c_ for c_ in phi8["incoming"] if c_["b"] in body8]
-        if len(ins8) != 1 or len(back8) != 1: continue
-        if fi8.lin(back8[0]["v"]) - fi8.lin(ph8) != Lin.const(1): continue
+        # the loop's continuation test: `i < N` in the header, or `i + 1 < N` in the latch of a do/while (the body has run for i already)
+        found8 = None
+        for tb in [cs8.bmap[h8]] + [cs8.bmap[x] for x in sorted(body8) if x != h8 and h8 in [s_.id for s_ in cs8.bmap[x].succs]]:
+            t8 = tb.term
+            if t8.op != "br" or len(t8.ops) != 3 or t8.ops[0]["k"] != "inst": continue
+            ci8 = cs8.imap[t8.ops[0]["v"]]
+            if ci8.op != "icmp" or ci8["pred"] not in ("ult", "slt", "ne") or t8.ops[2]["v"] not in body8 or t8.ops[1]["v"] in body8: continue
+            for ph in cs8.bmap[h8].insts:
+                if ph.op != "phi" or ph["t"].endswith("*"): continue
+                ins8 = [c_ for c_ in ph["incoming"] if c_["b"] not in body8]; back8 = [c_ for c_ in ph["incoming"] if c_["b"] in body8]
+                if len(ins8) != 1 or len(back8) != 1: continue
+                phL = fi8.lin({"k": "inst", "v": ph.id, "t": ph["t"]})
+                if fi8.lin(back8[0]["v"]) - phL != Lin.const(1): continue
+                tested = fi8.lin(ci8.ops[0]) - phL
+                if (tb.id == h8 and tested == Lin()) or (tb.id != h8 and tested == Lin.const(1)): found8 = (ci8, ph, ins8, back8)
+            if found8: break
+        if not found8: continue
+        ci8, phi8, ins8, back8 = found8
+        ph8 = {"k": "inst", "v": phi8.id, "t": phi8["t"]}
         I8 = fi8.lin(ins8[0]["v"]); N8 = fi8.lin(ci8.ops[1]); iL = fi8.lin(ph8)
         offs8 = set()
+        def off8(ld):
+            root, off = fi8.ptr(ld.ops[0])
+            return off if root == ("arg", vk8) else None
         for ld in cs8.insts():
             if ld.op != "load" or ld.block.id not in body8: continue
-            root, off = fi8.ptr(ld.ops[0])
-            if root != ("arg", vk8): continue
+            off = off8(ld)
+            if off is None: continue
             d8 = off - iL.scale(8)
             if d8.is_const() and d8.c % 8 == 0: offs8.add(d8.c // 8)
+        # a running `prev` (loaded once before the loop, then the element just read): the element one before the one read in the body
+        for pp in cs8.bmap[h8].insts:
+            if pp.op != "phi" or pp is phi8 or pp["t"] != "i64": continue
+            pin = [c_ for c_ in pp["incoming"] if c_["b"] not in body8]; pbk = [c_ for c_ in pp["incoming"] if c_["b"] in body8]
+            if len(pin) != 1 or len(pbk) != 1: continue
+            a0, a1 = strip(cs8, pin[0]["v"]), strip(cs8, pbk[0]["v"])
+            if a0["k"] != "inst" or a1["k"] != "inst": continue
+            l0, l1 = cs8.imap[a0["v"]], cs8.imap[a1["v"]]
+            if l0.op != "load" or l1.op != "load" or l1.block.id not in body8 or l0.block.id in body8: continue
+            o0, o1 = off8(l0), off8(l1)
+            if o0 is None or o1 is None: continue
+            d1 = o1 - iL.scale(8)
+            if d1.is_const() and d1.c % 8 == 0 and o0 == (I8.scale(8) + (d1.c - 8)): offs8.add(d1.c // 8 - 1)
         if len(offs8) < 2: continue
         n8 += 1
         cmin, cmax = min(offs8), max(offs8)
@@ -397,6 +443,18 @@ def analyse(mod, run, label):
     for fname in ("varintDictBuild", "varintDictDecode", "varintDictDecodeInto"):
         f7 = need_fn(mod, fname); fi7 = w.fi(f7).prepare()
         mv7 = measured_values(f7, w, memory_counter=True)
+        if not mv7:
+            # the header (and with it the index width) is parsed by a file-local helper shared by the readers
+            seen7 = set(); work7 = [f7]; found7 = []
+            while work7:
+                g7 = work7.pop()
+                for c7_ in g7.calls():
+                    h7 = mod.fn(c7_.get("callee") or "")
+                    if h7 is None or not h7.internal or not h7.blocks or h7.name in seen7: continue
+                    seen7.add(h7.name); work7.append(h7)
+                    found7 += [(h7, m_) for m_ in measured_values(h7, w, memory_counter=True)]
+            if len(found7) == 1:
+                f7 = found7[0][0]; fi7 = w.fi(f7).prepare(); mv7 = [found7[0][1]]
         if len(mv7) != 1: raise AnalysisBroken("A7: %s: expected one index-width computation, found %d" % (fname, len(mv7)))
         l7 = fi7.lin(mv7[0][0])
         # a file-local "width for this dictionary size" helper: the quantity measured is what the helper measures of its argument
